@@ -66,7 +66,7 @@ func genCase(r *gen.Rand, i int) any {
 				st.Zero, st.Inval = r.Chance(1, 5), r.Chance(1, 2)
 			}
 			c.Steps = append(c.Steps, st)
-		case x < 13 && len(open) > 0 && r.Chance(1, 6):
+		case x < 13 && len(open) > 0 && r.Chance(1, 8):
 			c.Steps = append(c.Steps, Step{T: "blockfail", D: gen.Pick(r, open)})
 		case x < 16 && len(open) > 0:
 			k := r.Intn(len(open))
@@ -79,7 +79,7 @@ func genCase(r *gen.Rand, i int) any {
 			d := gen.Pick(r, released)
 			c.Steps = append(c.Steps, Step{T: gen.Pick(r, []string{"do", "tx", "sub", "hooks", "rel", "close", "tron"}), D: d})
 		default:
-			c.Steps = append(c.Steps, Step{T: gen.Pick(r, []string{"bdo", "bdo", "bdo", "bfail"})})
+			c.Steps = append(c.Steps, Step{T: gen.Pick(r, []string{"bdo", "bdo", "bdo", "bdo", "bdo", "bfail"})})
 		}
 	}
 	// sessions still open are released at the end
@@ -126,7 +126,7 @@ func run(ci any) (res obs.Result) {
 	var slow int32
 	s.Fault = func(fc *fakeredis.Conn, cseq int, argv []string) fakeredis.Action {
 		if argv[0] == "BLPOP" && len(argv) == 3 && argv[2] == "5" && atomic.LoadInt32(&slow) == 1 {
-			return fakeredis.Action{Delay: 300 * time.Millisecond}
+			return fakeredis.Action{Delay: 120 * time.Millisecond}
 		}
 		return fakeredis.Action{}
 	}
@@ -270,7 +270,7 @@ func run(ci any) (res obs.Result) {
 			prog = append(prog, obs.App("DSetHooks", obs.N(uint64(st.D)), obs.Bool(st.Zero), obs.Bool(inval)))
 		case "blockfail":
 			atomic.StoreInt32(&slow, 1)
-			cctx, cancel := context.WithTimeout(ctx, 80*time.Millisecond)
+			cctx, cancel := context.WithTimeout(ctx, 40*time.Millisecond)
 			a := []string{"BLPOP", dn(st.D) + ":l", "5"}
 			err := se.d.Do(cctx, se.d.B().Blpop().Key(a[1]).Timeout(5).Build()).Error()
 			cancel()
@@ -288,7 +288,7 @@ func run(ci any) (res obs.Result) {
 			broken[st.D] = true
 			abandoned = append(abandoned, a[1])
 			prog = append(prog, obs.App("DBlockFail", obs.N(uint64(st.D)), voc.Argv(a)))
-			time.Sleep(350 * time.Millisecond) // let the server get past the delayed command
+			time.Sleep(150 * time.Millisecond) // let the server get past the delayed command
 		case "rel":
 			se.release()
 			se.gone = true
@@ -305,7 +305,7 @@ func run(ci any) (res obs.Result) {
 				prog = append(prog, obs.App("BDo", obs.N(uint64(bno)), voc.Argv([]string{"BLPOP", key, "0.01"}), "false"))
 			} else {
 				atomic.StoreInt32(&slow, 1)
-				cctx, cancel := context.WithTimeout(ctx, 80*time.Millisecond)
+				cctx, cancel := context.WithTimeout(ctx, 40*time.Millisecond)
 				err := cl.Do(cctx, cl.B().Blpop().Key(key).Timeout(5).Build()).Error()
 				cancel()
 				atomic.StoreInt32(&slow, 0)
@@ -314,7 +314,7 @@ func run(ci any) (res obs.Result) {
 					abandoned = append(abandoned, key)
 				}
 				prog = append(prog, obs.App("BDo", obs.N(uint64(bno)), voc.Argv([]string{"BLPOP", key, "5"}), obs.Bool(failed)))
-				time.Sleep(350 * time.Millisecond)
+				time.Sleep(150 * time.Millisecond)
 			}
 		}
 	}
